@@ -1,5 +1,5 @@
 (* Executable entry point of the C14 model (record formats: harness/src/bin/c14.rs).
-   14001 set / 14002 set;rotate / 14003 set;rotate sweep / 14004 mod_switch_2n /
+   14001 set / 14002 set;rotate(k) for each k, full tables / 14003 set;rotate(k) for each k, coefficient 0 / 14004 mod_switch_2n /
    14010 blind rotation with a zero mask, raw limbs / 14020 blind rotation, decrypted and rounded to the table precision *)
 From PV Require Import Base.MachineInt Model.Znx Model.Limbs Model.Ring Model.C14Lut Model.C14Blind.
 Open Scope Z_scope.
@@ -15,8 +15,11 @@ Definition flatten (l : limbs) : list Z := concat l.
 Definition dump (t : lut * Z) : list (list Z) := map flatten (fst t) ++ [[snd t]].
 
 (* value of one coefficient (its limbs, most significant first) as an integer scaled by 2^(size*b) *)
-Definition limbs_val (b : Z) (c : list Z) : Z := fold_left (fun acc x => acc * 2 ^ b + x) c 0.
-Definition poly_vals (n : nat) (b : Z) (pl : limbs) : poly := map (limbs_val b) (cols_of n pl).
+Definition limbs_val_pre (B : Z) (c : list Z) : Z := fold_left (fun acc x => acc * B + x) c 0.   (* B = 2^b *)
+Definition limbs_val (b : Z) (c : list Z) : Z := limbs_val_pre (2 ^ b) c.
+Definition poly_vals (n : nat) (b : Z) (pl : limbs) : poly := let B := 2 ^ b in map (limbs_val_pre B) (cols_of n pl).
+(* wrap F with the powers computed once: H = 2^(F-1), M = 2^F *)
+Definition wrap_pre (H M x : Z) : Z := (x + H) mod M - H.
 
 (* blind-rotation parameter block *)
 Record bparams := { q_n : nat; q_ext : nat; q_block : nat; q_nlwe : nat; q_b : Z; q_kbrk : Z; q_klut : Z; q_kres : Z;
@@ -88,7 +91,7 @@ Definition run_c14 (code : Z) (ps : list Z) (vs : list (list Z)) : option (list 
       | None => None
       | Some t =>
           if code =? 14001 then Some (dump t)
-          else if code =? 14002 then Some (dump (lookup_table_rotate n (p ps 6) (fst t), snd t))
+          else if code =? 14002 then Some (flat_map (fun k => map flatten (lookup_table_rotate n k (fst t))) (v vs 1))
           else Some (map (fun k => map hdZ (nth 0 (lookup_table_rotate n k (fst t)) [])) (v vs 1))
       end
   | 14004 =>
@@ -104,7 +107,7 @@ Definition run_c14 (code : Z) (ps : list Z) (vs : list (list Z)) : option (list 
             let ls := Z.of_nat (length (nth 0 (fst t) [])) in
             let F := ls * q_b q in
             match phase_blind q (fst t) l2n (v vs 2) with
-            | Some ph => Some [l2n; map (wrap F) ph]
+            | Some ph => Some [l2n; let H := 2 ^ (F - 1) in let M := 2 ^ F in map (wrap_pre H M) ph]
             | None => None
             end
       | _, _ => None
